@@ -26,7 +26,7 @@ case "$cmd" in
   run)
     pkg=$1; bin=$2; shift 2
     (cd "$S/harness" && CARGO_NET_OFFLINE=true cargo build --offline --profile verif -p "$pkg" 2>&1 | tail -n 15 | grep -E "^(error|warning: unused)|Finished" || true)
-    VERIF_ROOT="$S/out" "$S/target/verif/$bin" "$@"
+    VERIF_ROOT="$S/out" VERIF_REPO="$S/repo" "$S/target/verif/$bin" "$@"
     ;;
   rm)
     git -C /repo worktree remove --force "$S/repo" >/dev/null 2>&1 || true
